@@ -894,6 +894,16 @@ impl<'a, 'b> Sentence<'a, 'b> {
         }
     }
 
+    // Appends a tag, escaping the characters that have a meaning in a partial annotation.
+    fn push_escaped_tag(buf: &mut String, tag: &str) {
+        for c in tag.chars() {
+            if matches!(c, '\\' | ' ' | '-' | '|' | '/') {
+                buf.push('\\');
+            }
+            buf.push(c);
+        }
+    }
+
     /// Writes a text with partial annotations.
     ///
     /// # Examples
@@ -923,7 +933,7 @@ impl<'a, 'b> Sentence<'a, 'b> {
             for tag in &ts[..ts.iter().rposition(|x| x.is_some()).map_or(0, |x| x + 1)] {
                 buf.push('/');
                 if let Some(tag) = tag {
-                    buf.push_str(tag);
+                    Self::push_escaped_tag(buf, tag);
                 }
             }
             for ((c, ts), &b) in char_iter.zip(tag_iter).zip(&self.boundaries) {
@@ -936,7 +946,7 @@ impl<'a, 'b> Sentence<'a, 'b> {
                 for tag in &ts[..ts.iter().rposition(|x| x.is_some()).map_or(0, |x| x + 1)] {
                     buf.push('/');
                     if let Some(tag) = tag {
-                        buf.push_str(tag);
+                        Self::push_escaped_tag(buf, tag);
                     }
                 }
             }
